@@ -79,7 +79,7 @@ def ActRec (evType : String) (r : String) : Prop :=
 
 theorem assignStep_trace (canon : String) (cut : Bool) (a : ActionRef) (s : St) :
     (assignStep canon cut a s).trace = s.trace := by
-  unfold assignStep; split <;> rfl
+  unfold assignStep; (repeat' split) <;> rfl
 
 theorem finishBuiltin_adds (h : Hooks) (htr : HooksTraceOK h) (evType canon : String) (a : ActionRef)
     (s2 : St) : Adds (ActRec evType) s2 (finishBuiltin h canon a s2).1 := by
@@ -147,7 +147,7 @@ theorem execActionsF_adds (h : Hooks) (htr : HooksTraceOK h) :
   | succ f ih =>
     intro as evType s
     unfold execActionsF
-    exact foldl_actStep_adds h htr _ evType (fun as s => ih as evType s) false as (s, false)
+    exact foldl_actStep_adds h htr _ evType (fun as s => Adds.trans (ih as evType s) (Adds.of_eq (endExpansion_trace _ _))) false as (s, false)
 
 theorem execActions_adds (h : Hooks) (htr : HooksTraceOK h) (as : List ActionRef) (evType : String) (s : St) :
     Adds (ActRec evType) s (execActions h as evType s) := execActionsF_adds h htr _ as evType s
@@ -456,7 +456,7 @@ theorem execActions_ok (h : Hooks) (hall : AllActionsOK h) (as : List ActionRef)
     (execActions h as evType s).err = none ∧
       (execActions h as evType s).trace = (as.map (recOf evType)).reverse ++ s.trace := by
   unfold execActions execActionsF
-  obtain ⟨_, r2, r3⟩ := foldl_actStep_ok h hall (execActionsF h Tables.maxActionDepth) false evType as (s, false) rfl he
+  obtain ⟨_, r2, r3⟩ := foldl_actStep_ok h hall _ false evType as (s, false) rfl he
   exact ⟨r2, r3⟩
 
 theorem actRecords_ok (h : Hooks) (hall : AllActionsOK h) (as : List ActionRef) (evType : String) (s : St)
@@ -551,7 +551,7 @@ theorem runPlan_chron_ok (h : Hooks) (hok : HooksOK h) (htr : HooksTraceOK h) (h
 -- actions never touch the recorded history -------------------------------------------------------------------
 theorem assignStep_hist (canon : String) (cut : Bool) (a : ActionRef) (s : St) :
     (assignStep canon cut a s).hist = s.hist := by
-  unfold assignStep; split <;> rfl
+  unfold assignStep; (repeat' split) <;> rfl
 
 theorem finishBuiltin_hist (h : Hooks) (htr : HooksTraceOK h) (canon : String) (a : ActionRef) (s2 : St) :
     (finishBuiltin h canon a s2).1.hist = s2.hist := by
@@ -616,7 +616,7 @@ theorem execActionsF_hist (h : Hooks) (htr : HooksTraceOK h) :
   | succ f ih =>
     intro as evType s
     unfold execActionsF
-    exact foldl_actStep_hist h htr _ ih false evType as (s, false)
+    exact foldl_actStep_hist h htr _ (fun as ev s => by rw [endExpansion_hist]; exact ih as ev s) false evType as (s, false)
 
 /-- actions never touch the recorded history -/
 theorem execActions_hist (h : Hooks) (htr : HooksTraceOK h) (evType : String) (as : List ActionRef) (s : St) :
